@@ -7,7 +7,7 @@ wt=$(mktemp -d /tmp/mw.XXXXXX); rmdir $wt
 export GOFLAGS=-mod=mod GOPROXY=off GOSUMDB=off GOTOOLCHAIN=local
 git -C /repo worktree add -q --detach $wt HEAD || exit 2
 trap 'git -C /repo worktree remove --force $wt >/dev/null 2>&1; rm -rf $wt' EXIT
-if ! git -C $wt apply "$patch"; then echo "PATCH-DOES-NOT-APPLY"; exit 2; fi
+if ! git -C $wt apply "$patch" 2>/dev/null && ! git -C $wt apply -3 "$patch"; then echo "PATCH-DOES-NOT-APPLY"; exit 2; fi; (cd $wt && git reset -q)
 if ! (cd $wt && go build ./... >/dev/null 2>$wt.build); then echo "DOES-NOT-BUILD"; cat $wt.build | head; rm -f $wt.build; exit 2; fi
 rm -f $wt.build
 ut=$(cd $wt && go test -vet=off -count=1 ./... 2>&1 | grep -c "^FAIL\|^---")
